@@ -15,7 +15,12 @@ func init() {
 }
 
 func ruleAppendOwned(p *Prog, r *Res, rule string, pkgs []string, floor int) {
-	r.Rule(rule + ": first argument of every append in package query is owned by the function")
+	ruleAppendOwnedFiltered(p, r, rule, pkgs, floor, nil)
+}
+
+// ruleAppendOwnedFiltered: like ruleAppendOwned, restricted to appends whose first argument has a type accepted by filter.
+func ruleAppendOwnedFiltered(p *Prog, r *Res, rule string, pkgs []string, floor int, filter func(types.Type) bool) {
+	r.Rule(rule + ": first argument of every append in the packages " + fmt.Sprint(pkgs) + " is owned by the function")
 	want := map[string]bool{}
 	for _, s := range pkgs {
 		want[s] = true
@@ -34,6 +39,9 @@ func ruleAppendOwned(p *Prog, r *Res, rule string, pkgs []string, floor int) {
 				return true
 			}
 			idx++
+			if filter != nil && !filter(info.TypeOf(c.Args[0])) {
+				return true
+			}
 			n++
 			key := fmt.Sprintf("%s append#%d(%s, …)", f.Key(), idx, types.ExprString(c.Args[0]))
 			oc.use = c
@@ -46,6 +54,8 @@ func ruleAppendOwned(p *Prog, r *Res, rule string, pkgs []string, floor int) {
 			switch {
 			case okO:
 				r.Ok(rule, key, p.Pos(c), why)
+			case serviceListSplice(p, f, c):
+				r.Exempt(rule, key, p.Pos(c), "in-place change of Manager.indexes, the service goroutine's own list, assigned back to it: holders outside the loop only ever get copies (C10-b index-list-ownership, C13-f), and the splice itself is judged by C13-b/C07-d")
 			case !compaction && selfAppendThroughPointer(f, c):
 				r.Ok(rule, key, p.Pos(c), "self-append to a field of the object behind a pointer (x.f = append(x.f, …)): an extension never overwrites elements other holders of the old header can see, and no value copy of the struct is appended to (those sites are judged separately)")
 			case compaction && appendExempt[f.Key()] != "":
@@ -98,4 +108,31 @@ func selfAppendThroughPointer(f *Fn, c *ast.CallExpr) bool {
 		return true
 	})
 	return found
+}
+
+// serviceListSplice: append(mgr.indexes[:a], …) / append(mgr.indexes, …) whose result is assigned back to Manager.indexes.
+func serviceListSplice(p *Prog, f *Fn, c *ast.CallExpr) bool {
+	fld := p.Field("manager", "Manager", "indexes")
+	if fld == nil {
+		return false
+	}
+	info := f.Pkg.TypesInfo
+	base := ast.Unparen(c.Args[0])
+	if sl, ok := base.(*ast.SliceExpr); ok {
+		base = ast.Unparen(sl.X)
+	}
+	se, ok := base.(*ast.SelectorExpr)
+	if !ok || info.Uses[se.Sel] != types.Object(fld) {
+		return false
+	}
+	assignedBack := false
+	inspectShallow(f.Body(), func(x ast.Node) bool {
+		if as, ok := x.(*ast.AssignStmt); ok && len(as.Lhs) == 1 && len(as.Rhs) == 1 && ast.Unparen(as.Rhs[0]) == ast.Expr(c) {
+			if ls, ok := ast.Unparen(as.Lhs[0]).(*ast.SelectorExpr); ok && info.Uses[ls.Sel] == types.Object(fld) {
+				assignedBack = true
+			}
+		}
+		return true
+	})
+	return assignedBack
 }
